@@ -1020,6 +1020,34 @@ def LockStep (s : Sys F) : Ev → Prop
   -- injecting a socket re-creation failure is no reference event and moves no window; the tick that
   -- consumes it tears the link down like any other reconnect attempt (a `linkReset` in the `.hk` clause)
   | .failBind c => windowsOf (step s (.failBind c)).1 = windowsOf s
+  -- a verdict stamp (`weak` / `loss_degraded` / `cc_backing_off` / `cc_target_bps` of one link) is no
+  -- reference event: classic mode ignores the stamps — the windows and BOTH abstractions (hence every
+  -- reference choice) are unchanged
+  | .stamp idx w ld cb ct =>
+    windowsOf (step s (.stamp idx w ld cb ct)).1 = windowsOf s ∧
+    ∀ now, absRoute (step s (.stamp idx w ld cb ct)).1 now = absRoute s now ∧
+      absSent (step s (.stamp idx w ld cb ct)).1 now = absSent s now
+
+/-- A verdict stamp changes neither the windows nor the reference abstraction of the state. -/
+theorem stamp_abs (s : Sys F) (idx : Nat) (w ld cb : Bool) (ct : Nat) :
+    windowsOf (step s (.stamp idx w ld cb ct)).1 = windowsOf s ∧
+    ∀ now, absRoute (step s (.stamp idx w ld cb ct)).1 now = absRoute s now ∧
+      absSent (step s (.stamp idx w ld cb ct)).1 now = absSent s now := by
+  have key : ∀ {β : Type} (f : FLink F → β),
+      (∀ (l : FLink F), f { l with weak := w, lossDegraded := ld, ccBackingOff := cb, ccTarget := ct } = f l) →
+      (stampLink s.links idx w ld cb ct).map f = s.links.map f := by
+    intro β f hf
+    apply List.ext_getElem?
+    intro j
+    simp only [List.getElem?_map, Hk.stampLink_get]
+    cases s.links[j]? with
+    | none => rfl
+    | some l =>
+      simp only [Option.map_some, Hk.stampOne]
+      split
+      · rw [hf]
+      · rfl
+  refine ⟨key _ (fun _ => rfl), fun now => ⟨key _ (fun _ => rfl), key _ (fun _ => rfl)⟩⟩
 
 /-- **Per-event simulation, every `Ev` of `Sys.step`.**  From a state that satisfies the run invariant
 `RunInv B` (accounting invariant, logged + queued `≤ B` on every link, classic mode, guard off,
@@ -1046,6 +1074,7 @@ theorem C10_lockstep_step (B : Nat) (s : Sys F) (e : Ev) (h : RunInv B s) (hB : 
   | crit d => rfl
   | failNext c => rfl
   | failBind c => rfl
+  | stamp idx w ld cb ct => exact stamp_abs s idx w ld cb ct
 
 omit [Scalar F] in
 /-- `RunInv`, `KeepsMode`, `runS`, spelled out (definition check). -/
@@ -1056,10 +1085,11 @@ theorem C10_runInv_def (B : Nat) (s : Sys F) :
     (∀ cfg, KeepsMode (.setCfg cfg) ↔ cfg.classic = true ∧ cfg.stallDeselect = false) ∧
     (∀ now pkt, KeepsMode (.client now pkt)) ∧ (∀ now c d, KeepsMode (.uplink now c d)) ∧
     (∀ now, KeepsMode (.flush now)) ∧ (∀ now, KeepsMode (.hk now)) ∧ (∀ d, KeepsMode (.crit d)) ∧
-    (∀ c, KeepsMode (.failNext c)) ∧ (∀ c, KeepsMode (.failBind c)) :=
+    (∀ c, KeepsMode (.failNext c)) ∧ (∀ c, KeepsMode (.failBind c)) ∧
+    (∀ i w ld cb ct, KeepsMode (.stamp i w ld cb ct)) :=
   ⟨⟨fun h => ⟨h.pot, h.classic, h.guard, h.reg⟩, fun h => ⟨h.1, h.2.1, h.2.2.1, h.2.2.2⟩⟩,
    fun _ => Iff.rfl, fun _ _ => trivial, fun _ _ _ => trivial, fun _ => trivial, fun _ => trivial,
-   fun _ => trivial, fun _ => trivial, fun _ => trivial⟩
+   fun _ => trivial, fun _ => trivial, fun _ => trivial, fun _ _ _ _ _ => trivial⟩
 
 /-- **Lock-step along runs** (`C10_lockstep_run`), with the reference state re-derived from the shell
 state at every event (see `C10_lockstep_step`).  Hypotheses on the INITIAL state and the mode only:
